@@ -19,13 +19,19 @@ ASSUMPTIONS = [
 
 
 def gen(rng, tier, no, wide=False):
-    case = G.gen_case(rng, nsteps=rng.choice([0, 1, 2, 3, 4]), sync_rate=rng.choice([0, 0.1]))
-    # GPU-side sync records so that the table-aware device predicate matters
+    case = G.gen_case(rng, nsteps=rng.choice([0, 1, 2, 3, 4]), sync_rate=rng.choice([0, 0.1, 0.2]))
+    # GPU-side sync records so that the table-aware device predicate matters; they sit anywhere in the file, so that in a
+    # frame concatenated over ranks their row label is some other rank's host event
     for r, ev in case["ranks"].items():
         for e in list(ev):
             if e.get("name") == "cudaDeviceSynchronize" and rng.random() < 0.8:
-                ev.append({"ph": "X", "cat": "cuda_sync", "name": rng.choice(["Context Sync", "Event Sync"]), "pid": r, "tid": 0,
-                           "ts": e["ts"], "dur": e["dur"], "args": {"correlation": e["args"]["correlation"]}})
+                ev.insert(rng.randint(1, len(ev)), {"ph": "X", "cat": "cuda_sync", "name": rng.choice(["Context Sync", "Event Sync"]), "pid": r, "tid": 0,
+                                                     "ts": e["ts"], "dur": e["dur"], "args": {"correlation": e["args"]["correlation"]}})
+        if rng.random() < 0.35:
+            xs = [e for e in ev if e.get("ph") == "X" and "dur" in e]
+            h = rng.choice(xs)
+            ev.insert(rng.randint(1, len(ev)), {"ph": "X", "cat": "cuda_sync", "name": rng.choice(["Context Sync", "Event Sync"]), "pid": r, "tid": 0,
+                                                 "ts": h["ts"], "dur": h["dur"], "args": {"device": 0}})
     xs = [e for ev in case["ranks"].values() for e in ev if e.get("ph") == "X" and "dur" in e and e.get("cat") != "Trace"]
     t0 = min(e["ts"] for e in xs)
     times = sorted({e["ts"] - t0 for e in xs} | {e["ts"] + e["dur"] - t0 for e in xs})
